@@ -354,6 +354,8 @@ pub fn run_check(
     let abort = AtomicBool::new(false);
     let reexec = AtomicUsize::new(0);
     let bad_cases = AtomicUsize::new(0);
+    let over_wall = AtomicBool::new(false);
+    let max_wall: u64 = std::env::var("VERIF_MAX_WALL").ok().and_then(|s| s.parse().ok()).unwrap_or(if tier == "quick" { 600 } else { 7200 });
     let timeouts = AtomicUsize::new(0);
     let stop_early = AtomicBool::new(false);
 
@@ -368,12 +370,21 @@ pub fn run_check(
             let reexec = &reexec;
             let sample = &sample;
             let bad_cases = &bad_cases;
+            let over_wall = &over_wall;
             let timeouts = &timeouts;
             let stop_early = &stop_early;
             s.spawn(move || {
                 let dir = ctx.worker_dir(k);
                 loop {
                     if abort.load(Ordering::Relaxed) || stop_early.load(Ordering::Relaxed) {
+                        break;
+                    }
+                    // wall-clock cap of a batch (a tree on which most scenarios run into the liveness
+                    // bound is 100x slower than the unchanged one): sampling stops, what was explored
+                    // is reported
+                    if t0.elapsed().as_secs() > max_wall {
+                        stop_early.store(true, Ordering::Relaxed);
+                        over_wall.store(true, Ordering::Relaxed);
                         break;
                     }
                     let pos = next.fetch_add(1, Ordering::Relaxed);
@@ -391,6 +402,11 @@ pub fn run_check(
                                 match run_case(ctx, &dir, &case) {
                                     Ok(r2) if r2.event_hash == report.event_hash => {
                                         reexec.fetch_add(1, Ordering::Relaxed);
+                                    }
+                                    // a watchdog kill is a wall-clock event: a run that was killed once and
+                                    // finished the other time says nothing about the simulator's determinism
+                                    Ok(r2) if [&report, &r2].iter().any(|r| r.violations.iter().any(|v| v.fingerprint.contains("timeout"))) => {
+                                        let _ = r2;
                                     }
                                     Ok(r2) => {
                                         *harness_err.lock().unwrap() = Some(format!(
@@ -456,7 +472,11 @@ pub fn run_check(
             frontier = pos + 1;
         }
         slots.truncate(frontier);
-        println!("stopped early after {} cases: at least 48 of them violate {property} or at least 32 simulated processes hung", slots.len());
+        if over_wall.load(Ordering::Relaxed) {
+            println!("stopped after {} of {total} cases: the batch exceeded its wall-clock cap of {max_wall} s (VERIF_MAX_WALL)", slots.len());
+        } else {
+            println!("stopped early after {} cases: at least 48 of them violate {property} or at least 32 simulated processes hung", slots.len());
+        }
     }
     if let Ok(path) = std::env::var("VERIF_DUMP_HASHES") {
         let mut out = String::new();
